@@ -173,7 +173,11 @@ def c18(ctx):
     out = ctx.path("eval.ndjson")
     summ = harness(["record-eval", out, "--seed", ctx.seed, "--random", 1500 if quick else 20000, "--games", 8 if quick else 100])
     bad, skipped, total = engines.validate_records(ctx, out, shards=4, workers=4, label="eval")
-    engines.absorb_records(ctx, bad, skipped, total)
+    # C18 speaks of symmetry, bounds, mate ordering and stalemate = 0; the rest of what these records
+    # check (leaf score = static score on ordinary positions, board rendering) is spec growth
+    c18_whys = {"_restricted_types": ("score", "render"), "stalemate / draw by move count does not score zero": 1,
+                "a mated position is not scored as a mate at every remaining depth": 1}
+    engines.absorb_records(ctx, bad, skipped, total, whys=c18_whys)
     ctx.evaluations += total
     ctx.nontrivial += total
     ctx.extra["min_mate_magnitude"] = summ["min_mate_magnitude"]
